@@ -173,6 +173,12 @@ func runC06(c *eng.Ctx) {
 	ruleRestoredGroupReplaysTheJoins(c)
 	c.Rule("R16.8", "K6")
 	ruleStreamConfigCopiesAreComplete(c)
+	// (shared with C12) what a restored server cannot reproduce: a partition count remembered across a delete / re-create, a
+	// consumer pushed per element of the join list
+	c.Rule("R12.8", "K5")
+	ruleRebalanceCountsPartitionsNow(c)
+	c.Rule("R12.5", "K5")
+	ruleJoiningConsumerEntersEachStreamOnce(c)
 	p := c.P
 	P := applyPath(c)
 	var pkeys []string
